@@ -242,21 +242,45 @@ impl Engine for DagEngine {
   fn generate(&self, rng: &mut Rng, config: &str, _prop: &str) -> DagScn {
     let hash_seed = rng.next();
     // `wide`: up to 30 live nodes and 240 operations (large affected regions in the Pearce-Kelly re-ordering).
-    let max_live = if config == "wide" { rng.range(10, 30) as usize } else { rng.range(3, 12) as usize };
-    let nops = rng.range(5, if config == "wide" { 240 } else if config == "long" { 120 } else { 60 }) as usize;
+    // `marathon`: few nodes, 400..1200 operations (state that accumulates on one instance: epochs, counters, reused
+    // slots). `chain`: a directed prelude (old nodes, then a chain of 34..60 nodes, then an edge from the end of the
+    // chain to an old node: one re-ordering that moves the whole chain) followed by a short random tail.
+    let max_live = if config == "wide" { rng.range(10, 30) as usize } else if config == "marathon" { rng.range(4, 14) as usize } else if config == "chain" { 70 } else { rng.range(3, 12) as usize };
+    let nops = if config == "marathon" { rng.range(2500, 6000) as usize } else if config == "chain" { rng.range(8, 40) as usize } else { rng.range(5, if config == "wide" { 240 } else if config == "long" { 120 } else { 60 }) as usize };
     // Swarm weights.
     let w_node = rng.range(1, 4);
     let w_edge = rng.range(4, 12);
     let w_redge = rng.range(0, 3);
     let w_rout = rng.range(0, 2);
     let w_rnode = rng.range(0, 2);
-    let back_bias = rng.range(0, 80);
+    let mut back_bias = rng.range(0, 80);
     let readd_bias = rng.range(0, 30);
+    // `marathon`: mostly order-violating insertions (every one is a search) and enough removals to keep the graph sparse.
+    let (w_node, w_edge, w_redge, w_rout, w_rnode) = if config == "marathon" { back_bias = rng.range(50, 90); (1, rng.range(10, 14), rng.range(3, 6), rng.range(1, 3), rng.range(0, 1)) } else { (w_node, w_edge, w_redge, w_rout, w_rnode) };
     let mut ops = vec![];
     // Track approximate structure to bias generation (indices only; the reference model is rebuilt in run()).
     let mut live: Vec<usize> = vec![];
     let mut total = 0usize;
     let mut edges: Vec<(usize, usize)> = vec![];
+    let (mut phase_left, mut cluster) = (0u64, 0usize);
+    if config == "chain" {
+      let nold = rng.range(1, 3) as usize;
+      let len = rng.range(34, 60) as usize;
+      for _ in 0..nold + len { ops.push(DagOp::AddNode); live.push(total); total += 1; }
+      // The chain, edges inserted in a random order (each insertion may re-order a part of it).
+      let mut links: Vec<usize> = (nold..nold + len - 1).collect();
+      if rng.chance(50) { for i in (1..links.len()).rev() { let j = rng.below(i as u64 + 1) as usize; links.swap(i, j); } }
+      for i in links { ops.push(DagOp::AddEdge(i, i + 1)); edges.push((i, i + 1)); }
+      // A few shortcuts along the chain.
+      for _ in 0..rng.below(4) { let a = nold + rng.below(len as u64 - 2) as usize; let b = a + 1 + rng.below((nold + len - a - 1) as u64) as usize; ops.push(DagOp::AddEdge(a, b)); edges.push((a, b)); }
+      // The end of the chain now requires an old node: everything moves.
+      let old = rng.below(nold as u64) as usize;
+      ops.push(DagOp::AddEdge(nold + len - 1, old));
+      edges.push((nold + len - 1, old));
+      // Cycle-closing attempts inside the moved region.
+      for _ in 0..rng.range(2, 8) { let a = nold + rng.below(len as u64) as usize; let b = nold + rng.below(len as u64) as usize; let (a, b) = if a < b { (b, a) } else { (a, b) }; if a != b { ops.push(DagOp::AddEdge(a, b)); } }
+      ops.push(DagOp::AddEdge(old, nold));
+    }
     for _ in 0..nops {
       let tot = w_node + w_edge + w_redge + w_rout + w_rnode;
       let mut k = rng.below(tot);
@@ -269,8 +293,14 @@ impl Engine for DagEngine {
           continue;
         }
       }
+      // `marathon`: phases of 500..1300 operations (more than 255 searches) that stay (mostly) inside one of up to three clusters of nodes, so that
+      // the other nodes are left alone for hundreds of searches before they are touched again.
+      if config == "marathon" && phase_left == 0 { phase_left = rng.range(500, 1300); cluster = rng.below(3) as usize; }
+      phase_left = phase_left.saturating_sub(1);
+      let focus = config == "marathon" && rng.chance(93);
       let any = |rng: &mut Rng, live: &Vec<usize>, total: usize| -> usize {
         // Mostly live handles, sometimes any handle (dead ones included).
+        if focus { let c: Vec<usize> = live.iter().copied().filter(|x| x % 3 == cluster).collect(); if !c.is_empty() { return *rng.pick(&c); } }
         if !live.is_empty() && rng.chance(92) { *rng.pick(live) } else { rng.below(total as u64) as usize }
       };
       k -= w_node.min(k);
